@@ -139,7 +139,7 @@ Proof.
   split; [apply st_find_remove_same|]. split; [reflexivity|].
   unfold update_exposed.
   assert (s_data s = []) as -> by (destruct (s_data s); [reflexivity|discriminate Hd]).
-  cbn [exposed_sets]. induction (j_exp (get_jar w b)) as [|x r IH]; cbn [filter is_exposed dfind]; [reflexivity|exact IH].
+  cbn [exposed_sets orb]. induction (j_exp (get_jar w b)) as [|x r IH]; cbn [filter is_exposed dfind]; [reflexivity|exact IH].
 Qed.
 
 (* ---------- save: the session is written ---------- *)
@@ -154,7 +154,7 @@ Lemma si_save_path : forall c w b s blob,
         let hist := match age_exp (w_now w) age with
                     | Some _ => if existsb (cookie_eqb ck) (w_hist w1) then w_hist w1 else w_hist w1 ++ [ck]
                     | None => w_hist w1 end in
-        let j' := mkjar (j_sess j) (update_exposed (w_now w) age (dmap_eqb (s_data s) (s_copy s) && negb (newsess_of s) || (s_how s =? 1)%Z) s (j_exp j)) in
+        let j' := mkjar (j_sess j) (update_exposed (w_now w) age (dmap_eqb (s_data s) (s_copy s) && negb (newsess_of s)) (newsess_of s || negb (s_how s =? 0)%Z) s (j_exp j)) in
         (mkworld (w_now w1) (set_nth b j' (w_jars w1)) (w_store w1) (w_next w1) hist, l1, None)
     end.
 Proof.
